@@ -319,4 +319,46 @@ theorem route_params (names segs : List (List Nat)) (hl : names.length = segs.le
 example : matchRoute [.param [105, 100], .param [110]] [47, 55, 47, 37, 50, 53, 52, 49] =
     some [([105, 100], [55]), ([110], [37, 50, 53, 52, 49])] := by decide
 
+
+/-- **C15 (13) typed query / form data equals what the client encoded** (the round trip through
+    `QueryParams` / `UrlEncodedBody`): the client renders each field's value as text and writes
+    `name=value` pairs with the standard form serialiser; extraction returns exactly those values. -/
+theorem query_roundtrip (fields : List Field) (val : Field → SVal)
+    (hfn : (fields.map (·.name)).Nodup)
+    (hty : ∀ f ∈ fields, ∃ t, f.ty = .s t ∧ SValOk t (val f))
+    (hname : ∀ f ∈ fields, (∀ b ∈ f.name, b < 256) ∧ utf8Valid f.name = true)
+    (hval : ∀ f ∈ fields, (∀ b ∈ printSVal (val f), b < 256) ∧ utf8Valid (printSVal (val f)) = true) :
+    queryExtract fields (formSerialize (fields.map (fun f => (f.name, printSVal (val f))))) =
+      .ok (fields.map (fun f => (f.name, Val.s (val f)))) := by
+  rw [query_by_name fields _ hfn]
+  have hraw := formPairsRaw_formSerialize (fields.map (fun f => (f.name, printSVal (val f)))) (by
+    intro kv hkv
+    obtain ⟨f, hf, rfl⟩ := List.mem_map.mp hkv
+    exact ⟨(hname f hf).1, (hval f hf).1⟩)
+  have hown : formPairsOwned (formSerialize (fields.map (fun f => (f.name, printSVal (val f))))) =
+      fields.map (fun f => (f.name, printSVal (val f),
+        printSVal (val f) != byteSerialize (printSVal (val f)))) := by
+    unfold formPairsOwned
+    rw [hraw, List.map_map, List.map_map]
+    apply List.map_congr_left
+    intro f hf
+    simp only [Function.comp]
+    rw [formDecode_serialize_text _ (hname f hf).1 (hname f hf).2,
+        formDecode_serialize_text _ (hval f hf).1 (hval f hf).2]
+  rw [hown]
+  apply formSpec_of_all (fun f => Val.s (val f))
+  intro f hf
+  obtain ⟨t, ht, hok⟩ := hty f hf
+  unfold formFieldSpec
+  have hn' : ((fields.map (fun f => (f.name, printSVal (val f),
+      printSVal (val f) != byteSerialize (printSVal (val f))))).map (·.1)).Nodup := by
+    simpa [List.map_map, Function.comp_def] using hfn
+  rw [occurrences_of_mem_nodup hn' (List.mem_map.mpr ⟨f, hf, rfl⟩)]
+  simp [formField, ht, parse_print_scalar t _ (val f) hok]
+
+example :
+    queryExtract [⟨[105, 100], .s (.i 8)⟩, ⟨[110], .s .string⟩]
+      (formSerialize [([105, 100], [45, 49, 50, 56]), ([110], [97, 32, 38, 61, 43, 37, 195, 169])])
+      = .ok [([105, 100], .s (.int (-128))), ([110], .s (.str [97, 32, 38, 61, 43, 37, 195, 169]))] := by decide
+
 end Pxv.ReqData
